@@ -50,8 +50,12 @@ def gen_history(rnd, nact):
             acts.append(("edit", "normal", 0, None))
         elif r < 0.72:
             acts.append(("edit", "errno", rnd.random(), rnd.choice(["EIO", "ENOSPC", "EACCES", "EXDEV"])))
-        elif r < 0.80:
+        elif r < 0.76:
             acts.append(("edit", "signal", rnd.random(), rnd.choice(["TERM", "INT"])))
+        elif r < 0.80:
+            # every write(2) from operation k on transfers only part of what was asked for (a nearly full disk, a pipe-backed
+            # or network file system): legal kernel behaviour that a correct writer absorbs, so the run counts as normal
+            acts.append(("edit", "short", rnd.random() * 0.5, None))
         elif r < 0.94:
             acts.append(("edit", rnd.choice(["kill-before", "kill-after"]), rnd.random(), None))
         elif r < 0.97:
@@ -194,6 +198,8 @@ def run_history(built, acts, structured, record=False):
                         cand = [o["n"] for o in ops0 if o["n"] >= k and o["kind"] in ("openw", "write", "rename")]
                         k = cand[0] if cand else k
                         rules = "n=%d,act=errno:%d" % (k, fault.ERRNO[arg])
+                    elif how == "short":
+                        rules = "from=%d,kind=write,act=short" % k
                     elif how == "signal":
                         rules = "n=%d,act=sig:%d" % (k, signal.SIGTERM if arg == "TERM" else signal.SIGINT)
                     else:
